@@ -323,7 +323,11 @@ def check_property(prop, tier, seed):
             bounded += kr["bounded"]
             fn_reports += kr["fn_reports"]
             assumptions += kr["assumptions"]
-    failing_ids = {f["obligation"] for f in violations} | {f["obligation"] for _, f in known_hits}
+    # obligations listed as known findings are reported separately: they are neither expected to be
+    # discharged nor counted as such
+    known_ids = {f["obligation"] for _, f in known_hits}
+    obligations = max(0, obligations - len(known_ids))
+    failing_ids = {f["obligation"] for f in violations}
     discharged = max(0, obligations - len(failing_ids))
     if obligations == 0:
         undecided.append("vacuity: zero obligations were generated")
@@ -337,6 +341,7 @@ def check_property(prop, tier, seed):
         "extraction_rules_applied": rules,
         "canaries": canary_reports,
         "bounded": bounded,
+        "known_findings_reported": [{"obligation": f["obligation"], "what": kf["what"][:300]} for kf, f in known_hits],
         "unchecked_on_paper": pcfg.get("unchecked", []),
         "samples": samples,
         "smt_ms_total": sum(p.get("smt_ms", 0) for p in fn_reports),
